@@ -49,11 +49,13 @@ func c16Expected(rng *kit.RNG, class string, believed int64) int64 {
 		return believed + int64(rng.Range(1, 3))
 	case "zero":
 		return 0
+	case "negative":
+		return []int64{-2, -3, -1000, -1 << 63}[rng.Intn(4)]
 	}
 	return -1
 }
 
-var c16Classes = []string{"equal", "equal", "equal", "stale", "stale", "future", "future", "zero", "any", "any"}
+var c16Classes = []string{"equal", "equal", "equal", "stale", "stale", "future", "future", "zero", "any", "any", "negative"}
 
 // c16RawState is what "the log is unchanged" is judged on: the bytes and the
 // parsed records of all segment files.
